@@ -104,6 +104,13 @@ impl C06 {
                     self.rep.count(if what == "honest" { "honest blocks accepted" } else { "mutated blocks that are still correct successors, accepted" });
                 }
             }
+            Ok(Err(e)) if what == "honest" && !should_accept => {
+                // the block was produced by the code under test itself, batch after batch, from this very parent:
+                // "every block produced from an honestly built sealed state is accepted by its parent" - whatever a
+                // one-batch recomputation of its header says
+                let cls = if exp.is_none() { "members-refused-as-one-batch" } else { "header-differs-from-one-batch-recomputation" };
+                self.rep.violate(&format!("C06|rejects-honest-block|apply_block|{}", cls), format!("a block sealed by an honest producer was rejected by its own parent: {:?}", e), wit);
+            }
             Ok(Err(_)) => {
                 if should_accept {
                     self.rep.violate(&format!("C06|rejects-correct-block|apply_block|{}", if what == "honest" { "honest" } else { "equivalent-mutation" }), format!("a block whose header equals the recomputed header was rejected (mutation: {})", what), wit);
